@@ -35,9 +35,18 @@ def load_contracts():
 def verify_functions(rep, items, workers=None):
     """items: list of (qualname, case).  Runs each under its sidecar contract (in a process pool) and adds the
     obligations to the report."""
-    from pyvc.spec import Verifier
+    from pyvc.spec import Verifier, REG
     load_contracts()
     out = []
+    if rep.tier == 'quick':
+        keep = []
+        for q, c in items:
+            con = REG.cases.get((q, c))
+            if con is not None and getattr(con, 'tier', 'quick') == 'thorough':
+                rep.notes.append('deferred to the thorough tier (slow VC generation): %s[%s]' % (q, c))
+            else:
+                keep.append((q, c))
+        items = keep
     if len(items) <= 2 or os.environ.get('PYVC_SERIAL'):
         v = Verifier(rep.prop)
         for q, c in items:
